@@ -250,6 +250,30 @@ def r3_preview_classes(ctx):
         for x in ast.walk(arg) if arg is not None else []:
             if isinstance(x, ast.Attribute):
                 attrs.add(x.attr)
+    # the preview walks the tasks in queue order (the order evolve() uses)
+    loops = [l for l in walk_no_nested(pv.node) if isinstance(l, ast.For)
+             and any(isinstance(c, ast.Call) and call_name(c) == 'run_sql'
+                     for c in ast.walk(l))]
+    for l in loops[:1]:
+        it = l.iter
+        while isinstance(it, ast.Call) and call_name(it) in ('enumerate',
+                                                             'list', 'iter'):
+            it = it.args[0]
+        src = it
+        if isinstance(it, ast.Name):
+            for a in walk_no_nested(pv.node):
+                if isinstance(a, ast.Assign) and any(
+                        isinstance(t, ast.Name) and t.id == it.id
+                        for t in a.targets):
+                    src = a.value
+        if unparse(src) in ('self.evolver.tasks', 'evolver.tasks'):
+            ctx.ok(pv, 'the preview iterates evolver.tasks in queue order',
+                   l)
+        else:
+            ctx.finding(pv, l, 'the preview iterates %s instead of '
+                        'evolver.tasks: statements are listed in a different '
+                        'order than an execution runs them' % unparse(src),
+                        key='preview-order')
     # other task attributes read in the preview
     for x in walk_no_nested(pv.node):
         if isinstance(x, ast.Attribute) and isinstance(x.value, ast.Name) \
